@@ -95,6 +95,7 @@ def required(tier):
     }
     req = {k: int(v * s) for k, v in req.items()}
     req["offset_args_checked"] = 2000
+    req["array_calls"] = 400
     return req
 
 
@@ -1282,11 +1283,68 @@ def run_offsets(W, rec):
                                       registry=W.nitname, ret="offset")
 
 
+def run_arrays(W, rec, n):
+    """ndarray magnitudes, each wrapped function called TWICE with the very same argument objects:
+    both calls must receive the converted numbers and the caller's quantities must be left alone."""
+    import numpy as np
+    ureg, Q, rng = W.ureg, W.Q, W.rng
+    for _ in range(n):
+        canon = W.compound(2)
+        src = W.variant(canon)
+        if not W.float_safe(src, canon):
+            continue
+        fac = W.ratio(src, canon)
+        if fac is None:
+            continue
+        form = rng.choice(("plain", "plain", "def-dep"))
+        base = np.array([float(W.number(allow_zero=False)) for _ in range(rng.randint(1, 4))], dtype=float)
+        arg = Q(base.copy(), ureg.UnitsContainer(dict(src)))
+        got = []
+        if form == "plain":
+            w = ureg.wraps(None, (ureg.Unit(ureg.UnitsContainer(dict(canon))),))(lambda a: got.append(np.array(a, copy=True)))
+            args = (arg,)
+            want = [base * float(fac)]
+        else:
+            # '=A' takes the first argument as it is, '=A' again converts the second into the first's units
+            other = Q(base.copy() * 2.0, ureg.UnitsContainer(dict(canon)))
+            w = ureg.wraps(None, ("=A", "=A"))(lambda a, b: got.extend([np.array(a, copy=True), np.array(b, copy=True)]))
+            args = (other, arg)
+            want = [base * 2.0, base * float(fac)]
+        snap = [(np.array(a.magnitude, copy=True), dict(a._units.items())) for a in args]
+        rec.case(("arrays", form, fkey(src), fkey(canon)), nontrivial=src != canon)
+        for call in (1, 2):
+            del got[:]
+            rec.count("array_calls")
+            try:
+                w(*args)
+            except Exception as e:  # noqa: BLE001
+                rec.violation("wraps-raised-on-valid-call", {"src": srepr(src), "dst": srepr(canon), "err": srepr(e)[:200],
+                                                             "call": call, "magnitude": "ndarray"},
+                              decorator="wraps", registry=W.nitname, exc=type(e).__name__, strict=True)
+                break
+            ok = len(got) == len(want) and all(
+                np.shape(g) == np.shape(x) and np.allclose(g, x, rtol=1e-9, atol=0) for g, x in zip(got, want))
+            if not ok:
+                rec.violation("wraps-array-argument-magnitude",
+                              {"src": srepr(src), "dst": srepr(canon), "call": call, "form": form,
+                               "got": srepr([g.tolist() for g in got]), "want": srepr([x.tolist() for x in want])},
+                              decorator="wraps", registry=W.nitname, call="first" if call == 1 else "repeated")
+            for a, (m0, u0) in zip(args, snap):
+                if dict(a._units.items()) != u0 or not np.array_equal(np.asarray(a.magnitude), m0):
+                    rec.violation("wraps-mutated-its-argument",
+                                  {"src": srepr(src), "dst": srepr(canon), "call": call, "form": form,
+                                   "before": srepr(m0.tolist()), "after": srepr(np.asarray(a.magnitude).tolist())},
+                                  decorator="wraps", registry=W.nitname)
+                    break
+
+
 # --------------------------------------------------------------------------------------
 def run_shard(spec, rec):
     W = World(spec, rec)
     W.derived_dims = sorted(d for d in W.m.dims)
     run_offsets(W, rec)
+    if W.nit is float:
+        run_arrays(W, rec, max(40, spec["n"] // 10))
     rng = W.rng
     for _ in range(spec["n"]):
         r = rng.random()
